@@ -207,9 +207,10 @@ Fixpoint skip_empty (fs : list frame) : list frame * list frame :=
 
 (* get_options_and_frames: the options, the frames, how the frame source ends, and the number
    of frames that had to be read before the options were known *)
-Definition get_options_and_frames (b : list N)
+(* [header]: the (up to) three bytes the delimiting decision is taken from *)
+Definition get_options_and_frames_h (header : list N) (b : list N)
   : res (poptions * list frame * fi_end * nat) :=
-  if hint (firstn 3 b) then
+  if hint header then
     let '(fs, e) := read_frames b in
     match skip_empty fs with
     | (sk, first :: rest) =>
@@ -249,8 +250,10 @@ Fixpoint last_err (frs : list frame_result) : option exn :=
   | _ :: r => last_err r
   end.
 
-Definition parse_stream (ig : integ) (grouped strict : bool) (b : list N) : parse_result :=
-  match get_options_and_frames b with
+Definition get_options_and_frames (b : list N) := get_options_and_frames_h (firstn 3 b) b.
+
+Definition parse_stream_h (header : list N) (ig : integ) (grouped strict : bool) (b : list N) : parse_result :=
+  match get_options_and_frames_h header b with
   | Err e => fail e
   | Ok (po, fs, src_end, pre) =>
     if strict && negb (if grouped then strict_grouped_ok po else strict_flat_ok po) then fail Conformance else
@@ -270,6 +273,9 @@ Definition parse_stream (ig : integ) (grouped strict : bool) (b : list N) : pars
       end
     end
   end.
+
+Definition parse_stream (ig : integ) (grouped strict : bool) (b : list N) : parse_result :=
+  parse_stream_h (firstn 3 b) ig grouped strict b.
 
 (* flat view: every event yielded, in order *)
 Definition flat_events (r : parse_result) : list event :=
